@@ -89,7 +89,7 @@ func introFields(c *core.Ctx) (map[string]map[string]bool, token.Pos) {
 			if !ok || fd.Name.Name != "init" || fd.Body == nil {
 				continue
 			}
-			ast.Inspect(fd.Body, func(x ast.Node) bool {
+			c.InspectWithFresh(info, fd.Body, func(x ast.Node) bool { // init, or the phases it has been split into
 				switch y := x.(type) {
 				case *ast.AssignStmt:
 					// X = NewObject(ObjectConfig{Name: "__T", Fields: Fields{…}})
@@ -273,7 +273,7 @@ func c10Kind(c *core.Ctx, r *core.Reporter) {
 				r.Check(len(miss) == 0, "__Type."+field, fl.Pos(), "resolver handles "+core.Join(want),
 					"the __Type."+field+" resolver has no arm for "+core.Join(miss)+": introspection reports nothing for types of that kind")
 			}
-			ast.Inspect(fd.Body, func(x ast.Node) bool {
+			c.InspectWithFresh(info, fd.Body, func(x ast.Node) bool { // init, or the phases it has been split into
 				switch y := x.(type) {
 				case *ast.KeyValueExpr:
 					if k := constString(info, y.Key); k != "" {
